@@ -1,9 +1,17 @@
 import Sop.Lemmas.JsonPatch
+import Sop.Model.StoreInfoHistory
+import Sop.Lemmas.StoreInfoCache
 /-!
 # C13 — committing changes never alters or corrupts a store's configuration
 
 The theorems are about the REPAIRED `patchJSONNumericField` (`proposed_fixes/C13-anchor-key-token.diff`);
 `orig_counterexample*` show on the model of the unrepaired function why the repair is needed.
+
+Second part (end of file): the COUNT half over histories of commits in one process — `C13_count_history` (what a
+reopened store reports = initial count + the committed deltas, and its own configuration, after any history of
+commits including multi-store `Update`s that fail midway and are undone), on `Sop.Model.StoreInfoHistory` over the
+`StoreRepository.Update` model of C20 (`Sop.Model.StoreInfoCache`, lemmas `Sop.Lemmas.StoreInfoCache`);
+`C13_recache_unreverted_witness` for the variant whose undo re-caches the unreverted record.
 -/
 namespace Sop.C13
 open Sop.JsonPatch
@@ -289,5 +297,236 @@ theorem C13_counterexample : ¬ Statement_C13 patchOrig := by
 /-- non-vacuity: the same hostile records go through the repaired patch -/
 example : (patchBoth patch (encodeSI witness1) 5 7).bind parseSI = some { witness1 with count := 5, timestamp := 7 } :=
   C13_patch_sound _ _ _
+
+end Sop.C13
+
+namespace Sop.C13
+open Sop.SICache Sop.SIHist
+
+/-! ## count half: histories of commits in one process -/
+
+theorem sumDelta_insert (u : Upd) (n : String) : ∀ l, sumDelta (insertByName u l) n = sumDelta (u :: l) n
+  | [] => rfl
+  | v :: r => by
+    unfold insertByName
+    split
+    · simp only [sumDelta, sumDelta_insert u n r]; omega
+    · rfl
+
+theorem sumDelta_sort (n : String) : ∀ l, sumDelta (sortByName l) n = sumDelta l n
+  | [] => rfl
+  | u :: r => by
+    simp only [sortByName, sumDelta_insert, sumDelta, sumDelta_sort n r]
+
+/-- a forward loop that returns ok moved every file's count by the deltas the list carries for it -/
+theorem loop_ok_count {M} : ∀ (rest : List Upd) (s : St) (done : List (Upd × Rec)), Inv M s →
+    (∀ u ∈ rest, u.info = M u.name ∧ u.fwd.clean = true) →
+    (loop s done rest).2 = .ok →
+    ∀ n, ((loop s done rest).1 n).disk.map (·.count) = ((s n).disk).map (fun d => d.count + sumDelta rest n)
+  | [], s, done, _, _, _, n => by
+    simp only [loop, sumDelta]
+    cases (s n).disk <;> simp
+  | u :: rest, s, done, h, hr, hok, n => by
+    obtain ⟨hu, hf⟩ := hr u (by simp)
+    have hc := fwd_inv u (h u.name) hu hf
+    unfold loop at hok ⊢
+    split at hok
+    · rename_i c o heq
+      rw [heq] at hc
+      have hd := fwd_done u (h u.name) hu (o := o) (by rw [heq])
+      rw [heq] at hd
+      simp only at hd
+      have ih := loop_ok_count rest (s.set u.name c) (done ++ [(u, o)]) (set_inv _ _ h hc)
+        (fun v hv => hr v (by simp [hv])) hok n
+      rw [ih]
+      by_cases e : n = u.name
+      · subst e
+        rw [set_same, hd.2, hd.1]
+        simp only [Option.map_some, sumDelta, if_true]
+        congr 1; omega
+      · rw [set_other _ _ e]
+        have : ¬ u.name = n := fun x => e x.symm
+        simp only [sumDelta, this, if_false, Int.zero_add]
+    · simp at hok
+    · simp at hok
+
+/-- what the files and the shared cache must satisfy along a history, relative to the state `s0` it started from and
+the ghost `g`: every cache entry is absent or equal to its file, every file carries its store's configuration `M n`,
+and every file's count is the initial count plus the committed deltas -/
+def Acc (M : String → Nat) (s0 : St) (h : H) : Prop :=
+  Inv M h.s ∧ ∀ n, ((h.s n).disk).map (·.count) = ((s0 n).disk).map (fun d => d.count + h.committed n)
+
+/-- a commit of the kind C13 quantifies over: one entry per store, carrying that store's own configuration; whatever
+fails during the forward pass fails before taking effect (an I/O error: unreadable or unwritable file, full or broken
+disk — not a torn write, not a tolerated cache failure: C20-F3's subject); nobody removes a store meanwhile; the undo
+pass itself is not disturbed (evictions are fine) -/
+def GoodCommit (M : String → Nat) (l : List Upd) : Prop :=
+  (l.map (·.name)).Nodup ∧
+  ∀ u ∈ l, u.info = M u.name ∧ u.fwd.clean = true ∧ u.fwd.gone = false ∧ u.und.quiet = true
+
+def GoodEv (M : String → Nat) : Ev → Prop
+  | .commit l => GoodCommit M l
+  | _ => True
+
+theorem read_state (s : St) (n : String) : ∃ c, (s.read n).1 = s.set n c ∧ c = ((s n).get {}).1 := by
+  unfold St.read
+  split
+  · rename_i c r heq; exact ⟨c, rfl, by rw [heq]⟩
+  · rename_i c g _ heq; exact ⟨c, rfl, by rw [heq]⟩
+
+theorem acc_step (M : String → Nat) (s0 : St) (h : H) (e : Ev) (ha : Acc M s0 h) (hg : GoodEv M e) :
+    Acc M s0 (h.step update e).1 := by
+  obtain ⟨hi, hc⟩ := ha
+  cases e with
+  | read n =>
+    obtain ⟨c, e1, e2⟩ := read_state h.s n
+    simp only [H.step, e1]
+    have hci : Cell.Inv (M n) c := by rw [e2]; exact get_inv {} (hi n)
+    refine ⟨set_inv _ _ hi hci, fun m => ?_⟩
+    dsimp only
+    by_cases em : m = n
+    · subst em; rw [set_same, e2, get_disk]; exact hc m
+    · rw [set_other _ _ em]; exact hc m
+  | evict n =>
+    simp only [H.step, St.evict]
+    refine ⟨set_inv _ _ hi ⟨Or.inl rfl, (hi n).2⟩, fun m => ?_⟩
+    dsimp only
+    by_cases em : m = n
+    · subst em; rw [set_same]; exact hc m
+    · rw [set_other _ _ em]; exact hc m
+  | commit l =>
+    obtain ⟨hnd, hl⟩ := hg
+    have hclean : ∀ u ∈ l, u.info = M u.name ∧ u.fwd.clean = true ∧ u.und.clean = true :=
+      fun u hu => ⟨(hl u hu).1, (hl u hu).2.1, Flt.clean_of_quiet (hl u hu).2.2.2⟩
+    have hinv : Inv M (update h.s l).1 :=
+      loop_inv (sortByName l) h.s [] hi (by simp) (fun u hu => hclean u (mem_sortByName.1 hu))
+    simp only [H.step]
+    refine ⟨hinv, fun n => ?_⟩
+    by_cases hok : (update h.s l).2 = .ok
+    · simp only [hok, if_true]
+      have := loop_ok_count (M := M) (sortByName l) h.s [] hi
+        (fun u hu => ⟨(hl u (mem_sortByName.1 hu)).1, (hl u (mem_sortByName.1 hu)).2.1⟩) hok n
+      rw [sumDelta_sort] at this
+      unfold update
+      rw [this]
+      have hcn := hc n
+      cases hd : (h.s n).disk with
+      | none => rw [hd] at hcn; cases hs : (s0 n).disk <;> simp_all
+      | some d =>
+        rw [hd] at hcn
+        cases hs : (s0 n).disk with
+        | none => rw [hs] at hcn; simp at hcn
+        | some d0 =>
+          rw [hs] at hcn
+          simp only [Option.map_some, Option.some.injEq] at hcn ⊢
+          omega
+    · simp only [hok, if_false]
+      have := loop_restore (M := M) (fun n => (h.s n).disk) (sortByName l) h.s [] hi
+        (by simpa using nodup_sortByName hnd) (by simp) (by simp)
+        (fun u hu => ⟨(hl u (mem_sortByName.1 hu)).1, (hl u (mem_sortByName.1 hu)).2.1, (hl u (mem_sortByName.1 hu)).2.2.2⟩)
+        hok n (fun u hu hgone => by
+          have := (hl u (mem_sortByName.1 hu)).2.2.1
+          rw [this] at hgone; cases hgone)
+      unfold update
+      rw [this]
+      exact hc n
+
+theorem acc_run (M : String → Nat) (s0 : St) : ∀ (es : List Ev) (h : H), Acc M s0 h → (∀ e ∈ es, GoodEv M e) →
+    Acc M s0 (h.run update es)
+  | [], _, ha, _ => ha
+  | e :: es, h, ha, hg => acc_run M s0 es _ (acc_step M s0 h e ha (hg e (by simp))) (fun e' he' => hg e' (by simp [he']))
+
+/-- **C13_count_history**: start from any coherent state (every cache entry absent or equal to its file), run ANY
+history of commits on any stores — including multi-store `Update`s that fail at the second, third, … store and are
+undone —, cache-first reads and evictions, all in one process with one shared L2 cache. Then for every store that
+existed at the start, what a freshly started process reads (`storeinfo.txt`) is: count = initial count + the sum of the
+deltas of the commits that returned ok, and the store's own configuration; and a cache-first reader in the same process
+is answered with exactly that record. -/
+theorem C13_count_history (M : String → Nat) (s0 : St) (es : List Ev) (h0 : Inv M s0)
+    (hg : ∀ e ∈ es, GoodEv M e) (n : String) (d0 : Rec) (hd0 : (s0 n).disk = some d0) :
+    let h := (H.mk s0 (fun _ => 0)).run update es
+    (∃ d, h.cold n = some d ∧ d.count = d0.count + h.committed n ∧ d.info = M n) ∧
+    (h.s.read n).2 = h.cold n := by
+  intro h
+  have ha : Acc M s0 h := acc_run M s0 es _ ⟨h0, fun m => by cases (s0 m).disk <;> simp⟩ hg
+  obtain ⟨hi, hc⟩ := ha
+  have hcn := hc n
+  rw [hd0] at hcn
+  refine ⟨?_, ?_⟩
+  · cases hd : (h.s n).disk with
+    | none => rw [hd] at hcn; simp at hcn
+    | some d =>
+      rw [hd] at hcn
+      simp only [Option.map_some, Option.some.injEq] at hcn
+      exact ⟨d, hd, hcn, (hi n).2 d hd⟩
+  · -- the cache-first read: the entry is absent or equal to the file
+    obtain ⟨hcoh, _⟩ := hi n
+    unfold St.read Cell.get H.cold
+    cases hcache : (h.s n).cache with
+    | some r =>
+      rcases hcoh with hcoh | hcoh
+      · rw [hcache] at hcoh; cases hcoh
+      · simp only [← hcoh, hcache]
+    | none =>
+      cases hd : (h.s n).disk with
+      | none => simp
+      | some d => simp
+
+/-! ### the seeded demo as a history: two stores, a two-store commit that fails at the second store and is undone,
+then a successful commit on the first store -/
+
+def demoState : St := fun n =>
+  if n = "alpha" then ⟨some ⟨0, 111, 1⟩, some ⟨0, 111, 1⟩⟩ else if n = "beta" then ⟨some ⟨0, 111, 2⟩, some ⟨0, 111, 2⟩⟩ else {}
+def demoInfo : String → Nat := fun n => if n = "alpha" then 1 else 2
+/-- beta's `storeinfo.txt` cannot be read or written during the first commit -/
+def demoHistory : List Ev :=
+  [.commit [{ name := "alpha", delta := 3, ts := 1000, info := 1 },
+            { name := "beta", delta := 5, ts := 1000, info := 2, fwd := { getErr := true, fastRead := true, fullWrite := .before } }],
+   .read "alpha",
+   .commit [{ name := "alpha", delta := 2, ts := 2000, info := 1 }]]
+
+theorem demoState_inv : SICache.Inv demoInfo demoState := by
+  intro n
+  unfold demoState demoInfo Cell.Inv Cell.Coh
+  split
+  · simp
+  · split <;> simp
+
+/-- non-vacuity: the demo history satisfies the hypotheses of `C13_count_history` (its first commit fails and is undone) -/
+theorem demoHistory_good : ∀ e ∈ demoHistory, GoodEv demoInfo e := by
+  intro e he
+  simp only [demoHistory, List.mem_cons, List.mem_nil_iff, or_false] at he
+  rcases he with rfl | rfl | rfl
+  · refine ⟨by decide, ?_⟩
+    intro u hu
+    simp only [List.mem_cons, List.mem_nil_iff, or_false] at hu
+    rcases hu with rfl | rfl <;> decide
+  · trivial
+  · refine ⟨by decide, ?_⟩
+    intro u hu
+    simp only [List.mem_cons, List.mem_nil_iff, or_false] at hu
+    rcases hu with rfl
+    decide
+
+/-- on the code as it is: the failed commit is reported as failed, only the second commit counts, and a cold process
+reads count 2 with the second commit's timestamp and alpha's own configuration -/
+theorem demo_as_is :
+    ((H.mk demoState (fun _ => 0)).step update demoHistory.head!).2 = some .err ∧
+    ((H.mk demoState (fun _ => 0)).run update demoHistory).committed "alpha" = 2 ∧
+    ((H.mk demoState (fun _ => 0)).run update demoHistory).cold "alpha" = some ⟨2, 2000, 1⟩ ∧
+    ((H.mk demoState (fun _ => 0)).run update demoHistory).cold "beta" = some ⟨0, 111, 2⟩ := by
+  decide +kernel
+
+/-- **C13_recache_unreverted_witness**: the same history on the variant whose `undo` re-caches the caller's record
+`stores[ii]` instead of the reverted record `si` (one expression in `StoreRepository.Update`): right after the undone
+commit the file is still right (count 0) but the cache says 3; the next commit (+2) takes its base from the cache, and
+what a cold process reads afterwards is count 5 although only 2 items were ever committed — `C13_count_history` fails
+for the variant. -/
+theorem C13_recache_unreverted_witness :
+    ((H.mk demoState (fun _ => 0)).run updateBad (demoHistory.take 1)).cold "alpha" = some ⟨0, 111, 1⟩ ∧
+    (((H.mk demoState (fun _ => 0)).run updateBad (demoHistory.take 1)).s "alpha").cache = some ⟨3, 1000, 1⟩ ∧
+    ((H.mk demoState (fun _ => 0)).run updateBad demoHistory).committed "alpha" = 2 ∧
+    ((H.mk demoState (fun _ => 0)).run updateBad demoHistory).cold "alpha" = some ⟨5, 2000, 1⟩ := by
+  decide +kernel
 
 end Sop.C13
